@@ -6,6 +6,11 @@ REG = {
         "suites": [("bls", (1500, 60000))],
         "rule": "random operator trees (2-9 nodes, all six operators, leaf sets incl. huge values, k from 0 to beyond 2**64, "
                 "alignments 1..64, divisors 1..2**20) built through the public BitLengthSet API, with 2-25 queries each; "
+                "operand-form family: small trees whose concatenations / unions are spelled through every public composition API (static concatenate / unite over a list, tuple, generator or "
+                "iterator; x + y, x | y; the reflected operators with a plain left operand; += and |=; functools.reduce and sum with and without a start value) with every admissible operand form "
+                "(BitLengthSet object, copy, plain set / frozenset / list / tuple / generator / list with duplicates, the numerically expanded set of an operator-backed operand, the plain scalar of a "
+                "single-valued leaf) in every operand position, a scalar 0 or 1 of its own put into a random position of most compositions, optionally wrapped into repeat / repeat_range / pad / a "
+                "further concatenation, all queried analytically and numerically and the operands queried again afterwards; "
                 "a case is non-trivial if it has a composite node and at least one query; distinct = distinct (nodes, queries)",
         "technique": "Lean 4 theorems over an executable model of the operator tree (induction over all trees, all divisors), re-checked on every run against Lean definitions translated from _symbolic.py (py2lean + refinement theorem Bridge.refines) + differential correspondence with the real BitLengthSet",
         "level_text": "Every analytic answer (min, max, residues modulo any d>=1, fixed_length, is_aligned_at, numerical expansion) of the modelled operator tree is proved in Lean 4 to equal the mathematically defined set, for all trees, counts and divisors, and no assert can fire; the model is tied to _symbolic.py/_bit_length_set.py by running both on generated operation sequences on every run.",
